@@ -140,12 +140,14 @@ class Result:
         self.stopped_early = False
 
     def record(self, case, info, hashed=True):
-        self.evaluations += 1
         info = info or {}
+        # a case may stand for a block of `count` elementary evaluations (vectorised enumerations)
+        count = int(info.get('count', 1))
+        self.evaluations += count
         for lab in info.get('labels', ()):
             self.labels[lab] += 1
         if info.get('nontrivial'):
-            self.n_nontrivial += 1
+            self.n_nontrivial += int(info.get('nontrivial_count', count))
             if hashed:
                 self.nontrivial.add(case_hash(case))
             if len(self.samples) < 2:
